@@ -68,20 +68,25 @@ Definition lock (s : lstate) (i : nat) (force : bool) : lstate :=
       else (tracker s, aset k (S (cget k (counter s))) (counter s)) in
     {| arrs := upd_arr (arrs s) i (set_wr false); counter := cnt; tracker := trk; waiting := waiting s; ops := ops s |}.
 
-(* the loop over the views waiting for base key kb *)
-Fixpoint wake_views (vs : list nat) (arrs0 : list arr) (cnt : list (nat * nat)) (trk : list (nat * nat)) (rest : list nat)
+(* the loop over the views waiting for the base with index ib: an entry is acted upon only if the tracked array is alive and really is a view
+   of that base; an entry whose array has died is dropped; an entry whose id now belongs to an unrelated array (id re-use) is skipped and that
+   array's tracking information is left alone *)
+Definition opt_nat_eqb (o : option nat) (n : nat) : bool := match o with Some m => Nat.eqb m n | None => false end.
+Fixpoint wake_views (ib : nat) (vs : list nat) (arrs0 : list arr) (cnt : list (nat * nat)) (trk : list (nat * nat)) (rest : list nat)
   : list arr * list (nat * nat) * list nat :=
   match vs with
   | [] => (arrs0, trk, rest)
   | v :: vs' =>
-      if Nat.ltb 0 (cget v cnt) then wake_views vs' arrs0 cnt trk (rest ++ [v])      (* view involved in a new op: stays *)
+      if Nat.ltb 0 (cget v cnt) then wake_views ib vs' arrs0 cnt trk (rest ++ [v])      (* view involved in a new op: stays *)
       else
         match aget v trk with
-        | None => wake_views vs' arrs0 cnt trk rest                                  (* KeyError: no longer available *)
+        | None => wake_views ib vs' arrs0 cnt trk rest                                  (* no longer tracked *)
         | Some j =>
-            let trk' := adel v trk in
-            if a_alive (nth j arrs0 dead) then wake_views vs' (upd_arr arrs0 j (set_wr true)) cnt trk' rest
-            else wake_views vs' arrs0 cnt trk' rest
+            let aj := nth j arrs0 dead in
+            if a_alive aj then
+              if opt_nat_eqb (a_base aj) ib then wake_views ib vs' (upd_arr arrs0 j (set_wr true)) cnt (adel v trk) rest
+              else wake_views ib vs' arrs0 cnt trk rest                                 (* id re-used by an unrelated array *)
+            else wake_views ib vs' arrs0 cnt (adel v trk) rest                          (* the waiting view has died *)
         end
   end.
 
@@ -116,7 +121,7 @@ Definition release (s : lstate) (i : nat) : lstate :=
   let a1 := get s1 i in
   match a_base a1, a_wr a1, aget k (waiting s1) with
   | None, true, Some vs =>
-      let '(arrs2, trk2, rest) := wake_views vs (arrs s1) (counter s1) (tracker s1) [] in
+      let '(arrs2, trk2, rest) := wake_views i vs (arrs s1) (counter s1) (tracker s1) [] in
       {| arrs := arrs2; counter := counter s1; tracker := trk2;
          waiting := (match rest with [] => adel k (waiting s1) | _ => aset k rest (waiting s1) end); ops := ops s1 |}
   | _, _, _ => s1
